@@ -27,6 +27,8 @@ pub struct Params {
     pub auth: bool,
     /// Maximum Packet Size the CLIENT announces in CONNECT (limits what the server may send, never what the client sends)
     pub own_max: Option<u32>,
+    /// Receive Maximum the CLIENT announces in CONNECT (limits the server's sending, never the client's)
+    pub own_rmax: Option<u16>,
     /// the handshake is not performed by `reset` but by a later `handshake` step (operations may be started, and polled, before
     /// connect() has completed: their requests wait in the channel)
     pub defer: bool,
@@ -49,6 +51,7 @@ impl Default for Params {
             auth: false,
             burn: 0,
             own_max: None,
+            own_rmax: None,
             defer: false,
         }
     }
@@ -57,7 +60,7 @@ impl Default for Params {
 impl Params {
     pub fn to_json(&self) -> Value {
         json!({"a": "reset", "run": self.run, "fam": self.fam, "R": self.r, "M": self.m,
-               "sei_connect": self.sei_connect, "sei_connack": self.sei_connack, "disc": self.disc, "log_io": self.log_io, "auth": self.auth, "burn": self.burn, "own_max": self.own_max, "defer": self.defer})
+               "sei_connect": self.sei_connect, "sei_connack": self.sei_connack, "disc": self.disc, "log_io": self.log_io, "auth": self.auth, "burn": self.burn, "own_max": self.own_max, "own_rmax": self.own_rmax, "defer": self.defer})
     }
     pub fn from_json(v: &Value) -> Params {
         Params {
@@ -72,6 +75,7 @@ impl Params {
             auth: v["auth"].as_bool().unwrap_or(false),
             burn: v["burn"].as_u64().unwrap_or(0) as u32,
             own_max: v["own_max"].as_u64().map(|x| x as u32),
+            own_rmax: v["own_rmax"].as_u64().map(|x| x as u16),
             defer: v["defer"].as_bool().unwrap_or(false),
             ..Default::default()
         }
@@ -116,6 +120,9 @@ fn handshake(s: &mut Sim, p: &Params) -> bool {
     }
     if let Some(x) = p.own_max {
         spec["max_packet"] = json!(x);
+    }
+    if let Some(x) = p.own_rmax {
+        spec["recv_max"] = json!(x);
     }
     if p.auth {
         spec["auth_method"] = json!("m");
@@ -312,7 +319,7 @@ pub fn settle(s: &mut Sim, rng: &mut StdRng, sweep: bool) {
                     polls += 1;
                 }
             }
-            if polls > 20000 {
+            if polls > 3000 {
                 s.emit(json!({"e": "livelock"}));
                 return;
             }
@@ -921,6 +928,11 @@ pub fn walk(p: &Params, cfg: &WalkCfg, seed: u64) -> (Vec<Value>, Vec<String>) {
                     let (_, pkj) = choose(&mut rng, &b.q2_open).clone();
                     let mut pkj = pkj;
                     pkj["dup"] = json!(1);
+                    // a message first sent with its topic name AND a Topic Alias may come again with the alias alone
+                    let has_alias = pkj["props"].as_array().map(|a| a.iter().any(|p| p[0] == 0x23)).unwrap_or(false);
+                    if has_alias && pkj["topic"].as_str().map(|t| !t.is_empty()).unwrap_or(false) && rng.gen_range(0..2) == 0 {
+                        pkj["topic"] = json!("");
+                    }
                     do_step(&mut s, &mut rng, &mut script, json!({"a": "pkt", "pk": pkj}));
                 } else if !b.q2_open.is_empty() && r < cfg.redeliver_pct + 30 {
                     let i = rng.gen_range(0..b.q2_open.len());
@@ -973,6 +985,9 @@ pub fn walk(p: &Params, cfg: &WalkCfg, seed: u64) -> (Vec<Value>, Vec<String>) {
                     let aliased = rng.gen_range(0..25) == 0;
                     if aliased {
                         props.push(json!([0x23, 1 + rng.gen_range(0..3)]));
+                    } else if qos == 2 && rng.gen_range(0..3) == 0 {
+                        // establishes an alias: topic name and Topic Alias together
+                        props.push(json!([0x23, 4 + rng.gen_range(0..3)]));
                     }
                     let pkj = json!({"t": "PUBLISH", "qos": qos, "id": id, "dup": 0, "retain": (rng.gen_range(0..5) == 0) as u8,
                         "topic": if aliased { String::new() } else { format!("in/{}", b.next_in) }, "payload": {"tag": format!("i{}", b.next_in), "n": *choose(&mut rng, &[0usize, 3, 40, 200])},
